@@ -90,6 +90,8 @@ pub fn dec(args: &[&str]) -> String {
             after = k.parse().unwrap();
         }
     }
+    let fed = ctl.pending_bytes();
+    let base = crate::mem_reset();
     let mut probe = hooks::ReadProbe::new(Box::new(r));
     let (_c, w) = count_waker();
     let mut cx = Context::from_waker(&w);
@@ -122,8 +124,10 @@ pub fn dec(args: &[&str]) -> String {
             }
         }
     }
-    let (bl, _cap) = probe.buffered();
+    let (bl, cap) = probe.buffered();
+    let (peak, maxreq) = crate::mem_report(base);
     out.push(format!("buf={}", bl));
+    out.push(format!("mem={},{},{},{}", fed, cap, peak, maxreq));
     out.push(format!("depth={}", hooks::take_max_depth()));
     out.join(" ")
 }
@@ -146,4 +150,19 @@ pub fn stype(s: &str) -> zeromq::SocketType {
 pub fn ready(args: &[&str]) -> String {
     let id = args.get(1).map(|x| bytes_tok(x));
     hex(&hooks::ready_bytes(stype(args[0]), id.as_deref()))
+}
+
+/// compat A B -> 1 | 0 (panic is caught by the runner)
+pub fn compat(args: &[&str]) -> String {
+    format!("{}", stype(args[0]).compatible(stype(args[1])) as u8)
+}
+
+/// stypename HEX -> ok:NAME | err
+pub fn stypename(args: &[&str]) -> String {
+    use std::convert::TryFrom;
+    let b = bytes_tok(args[0]);
+    match zeromq::SocketType::try_from(&b[..]) {
+        Ok(t) => format!("ok:{}:{}", t.as_str(), t as usize),
+        Err(_) => "err".to_string(),
+    }
 }
